@@ -178,11 +178,14 @@ def main(ck, tier, w):
         placement = [(p['file'], p['slot']) for p in obs['lay']]
         fileno = {f: f for f in range(10)}
         keylen = rng.choice([1, 2, 3, 7, 8, 8, 8, 13, 32, 64])
-        key = rng.choice([bytes(keylen), rng.randbytes(keylen)])
+        # random, all-zero, and keys that only START with zero bytes (a file XOR-ed with such a key still begins with the
+        # network magic: it must be de-obfuscated all the same)
+        key = rng.choice([bytes(keylen), rng.randbytes(keylen), rng.randbytes(keylen),
+                          (bytes(4) + rng.randbytes(60))[:max(keylen, 5)], bytes(12) + b'\x80' + bytes(51)])
         outs = []
         for xk in (None, key):
             r1 = random.Random('%d-e2e-%d-phys' % (seed, i))      # same physical layout for both
-            d = layout.materialise(w.sub('dd'), blocks, placement, r1, coin=coin, xor_key=xk, fileno=fileno,
+            d = layout.materialise(w.sub('dd'), blocks, placement, r1, coin=coin, xor_key=xk, fileno=fileno, pad=i % 3 != 0,
                                    namer=lambda n: 'blk%05d.dat' % n,
                                    big_offset=(n - 1, 2 ** 32 + 8 + (i * 7919) % 50000) if i % 10 == 0 else None)
             cb = rng.choice(['csvdump', 'csvdump', 'unspentcsvdump', 'balances', 'simplestats', 'opreturn']) if xk is None else cb
